@@ -337,6 +337,15 @@ func hostCase(r *hv.Rand, sparse bool) {
 		}
 		blocks = append(blocks, b)
 	}
+	class := "host-blocks"
+	if sparse {
+		class = "host-blocks-sparse"
+	}
+	hostRun(class, name, global, blocks, true)
+}
+
+// runs the real MatchHost on one configuration, judges it by the definition, emits the case
+func hostRun(class, name string, global blk, blocks []blk, model bool) {
 	// the real code
 	cfg := &config.ClientConfig{Global: global.toGo()}
 	for _, b := range blocks {
@@ -381,10 +390,10 @@ func hostCase(r *hv.Rand, sparse bool) {
 		ds = append(ds, b.String())
 	}
 	desc := fmt.Sprintf("MatchHost(%q) global=%s hosts=[%s]", name, global, strings.Join(ds, " "))
-	c := hv.Case{Fn: "c20_host_ok", Class: "host-blocks", Desc: desc, NT: applied > 0 && skipped > 0,
+	c := hv.Case{Fn: "c20_host_ok", Class: class, Desc: desc, NT: applied > 0 && skipped > 0,
 		Replay: map[string]interface{}{"host": name, "global": global.String(), "blocks": ds, "blocks_that_must_apply": appliedIdx}}
-	if sparse {
-		c.Class = "host-blocks-sparse"
+	if !model {
+		c.Fn = ""
 	}
 	if pan {
 		c.Coq = hv.Tuple(global.coq(), hv.List(mapBlk(blocks)), hv.Str(name),
@@ -431,6 +440,11 @@ func vhostCase(r *hv.Rand) {
 	if r.Chance(10) && len(pats) > 0 {
 		pats = append(pats, pats[r.Intn(len(pats))]) // a duplicate: first one must win
 	}
+	vhostRun("vhosts", pats, name, true)
+}
+
+// runs the real VirtualHosts.Match on one list, judges it by the definition, emits the case
+func vhostRun(class string, pats []string, name string, model bool) {
 	vh := make(hopserver.VirtualHosts, len(pats))
 	for i, p := range pats {
 		vh[i].Pattern = p
@@ -451,7 +465,11 @@ func vhostCase(r *hv.Rand) {
 		}
 	}
 	stat[fmt.Sprintf("vhost-first-match-at-%d", wnt)]++ // 0 = none
-	c := hv.Case{Fn: "c20_vhost_ok", Class: "vhosts", Desc: fmt.Sprintf("VirtualHosts%q.Match(%q)", pats, name),
+	fn := "c20_vhost_ok"
+	if !model {
+		fn = ""
+	}
+	c := hv.Case{Fn: fn, Class: class, Desc: fmt.Sprintf("VirtualHosts%q.Match(%q)", pats, name),
 		Coq:    hv.Tuple(strs(pats), hv.Str(name), hv.Tuple(hv.B(pan), hv.Ni(got))),
 		NT:     wnt > 1 || matching > 1,
 		Replay: map[string]interface{}{"patterns": pats, "name": name, "want_index_plus_1": wnt, "got_index_plus_1": got}}
@@ -534,6 +552,25 @@ func main() {
 	for k := hv.Scale(500, 5000); k > 0; k-- {
 		vhostCase(r)
 	}
+	// The two consumers of Glob judged on the same small-alphabet grid as Glob itself (a consumer may
+	// wrap, cache or shortcut the matcher): every pattern over {a,b,*} against every name over {a,b},
+	// as a one-pattern entry in front of a catch-all (vhosts) and as a one-pattern host block between
+	// two others (MatchHost). The oracle judges every pair; the model is compared on the shorter ones.
+	gl := hv.Scale(4, 5)
+	spx := func(s string) *string { return &s }
+	for _, p := range allStrings("ab*", gl) {
+		for _, n := range allStrings("ab", gl) {
+			model := len(p) <= 3 && len(n) <= 2
+			vhostRun("vhosts-grid", []string{p, "*"}, n, model)
+			if len(p)+len(n) <= hv.Scale(6, 8) {
+				vhostRun("vhosts-grid", []string{"b*b*b", p, n + "b"}, n, false)
+				hostRun("host-blocks-grid", n, blk{ca: []string{"g"}},
+					[]blk{{pats: []string{n + "a"}, ca: []string{"c0"}}, {pats: []string{p}, ca: []string{"c1"}, hostname: spx("h1"), port: 7},
+						{pats: []string{"*"}, ca: []string{"c2"}, user: spx("u2")}}, model)
+			}
+		}
+	}
+
 	info := map[string]interface{}{"what": "counts of what the generated inputs exercised (oracle's verdicts)"}
 	for k, v := range stat {
 		info[k] = v
